@@ -2,7 +2,7 @@
    Only statements, each closed by [exact]. *)
 From Coq Require Import List NArith ZArith Bool.
 From GV Require Import Base.Bytes Base.Scan Base.PyStr Model.Parser Spec.IdealBody
-     Proof.ParserHead Proof.ChunkedDecode Proof.ParserRun Proof.ChunkedReader Proof.BodyFileThm Proof.BodySim Proof.EndToEnd.
+     Proof.ParserHead Proof.ChunkedDecode Proof.ParserRun Proof.ChunkedReader Proof.BodyFileThm Proof.BodySim Proof.EndToEnd Proof.RunFuel.
 Import ListNotations.
 Local Open Scope N_scope.
 
@@ -72,6 +72,21 @@ Theorem C07_drain_completes : forall c k rem after tr b,
                /\ u_abs (c_unreader k') = after /\ c_trailers k' = tr /\ NE (c_unreader k').
 Proof. exact drain_completes. Qed.
 Print Assumptions C07_drain_completes.
+
+(* ... and no operation of wsgi.input (read / readline / readlines / next, any size), no sequence of them and no
+   drain ever answers "out of fuel", for both framings: an exception seen by the application is always a real one *)
+Theorem C07_no_call_answers_out_of_fuel : forall c cl b k, inv_c c k ->
+    fst (do_call (reader_read c) remaining_upper cl (b, k)) <> RExc EOutOfFuel.
+Proof. exact do_call_never_out_of_fuel. Qed.
+Print Assumptions C07_no_call_answers_out_of_fuel.
+Theorem C07_no_program_answers_out_of_fuel : forall c prog b k, inv_c c k ->
+    let '(o, bk, err) := run_calls (reader_read c) remaining_upper prog (b, k) in
+    err <> Some EOutOfFuel /\ (err = None -> inv_c c (snd bk)).
+Proof. exact run_calls_never_out_of_fuel. Qed.
+Theorem C07_drain_never_out_of_fuel : forall c b k, inv_c c k ->
+    snd (drain (reader_read c) remaining_upper (S (length b + remaining_upper k)) (b, k)) <> Some EOutOfFuel.
+Proof. exact drain_never_out_of_fuel. Qed.
+Print Assumptions C07_drain_never_out_of_fuel.
 
 (* ---- non-vacuity ---- *)
 Definition ex_chunked : bytes :=      (* 5\r\nhel\nl\r\n3;x=y\r\no\nw\r\n0\r\nT: 1\r\n\r\nNEXT *)
